@@ -665,9 +665,16 @@ func c01MergeDriver(c *Ctx, r *Rng) {
 		}
 		prog := Pick(r, []string{"cp %B %D", "cp %O %D", "cat %A %B > %D", "cat %O %A %B > %D", "head -c 3 %B > %D", "cp %A %D",
 			// programs that save atomically: the result is a NEW file renamed over %D
-			"cp %B %D.part && mv %D.part %D", "cat %A %B > %D.new && mv -f %D.new %D", "rm -f %D && cp %O %D"})
+			"cp %B %D.part && mv %D.part %D", "cat %A %B > %D.new && mv -f %D.new %D", "rm -f %D && cp %O %D",
+			// programs that work IN PLACE on their inputs, as Git's own merge drivers do (the result is left in %A):
+			// the temporary files they are handed are theirs to scribble on — the stored objects are not
+			"cat %B >> %A && cp %A %D", "printf scribble >> %O && printf scribble >> %B && cp %A %D"})
 		var merged []byte
 		switch prog {
+		case "cat %B >> %A && cp %A %D":
+			merged = append(append([]byte(nil), cont[1]...), cont[2]...)
+		case "printf scribble >> %O && printf scribble >> %B && cp %A %D":
+			merged = cont[1]
 		case "cp %B %D.part && mv %D.part %D":
 			merged = cont[2]
 		case "cat %A %B > %D.new && mv -f %D.new %D":
@@ -696,7 +703,33 @@ func c01MergeDriver(c *Ctx, r *Rng) {
 			}
 		}
 		old, _ := os.ReadFile(filepath.Join(dir, outFile))
+		// one of the three versions is neither in local storage nor to be had (there is no remote): there is nothing
+		// to merge, and an empty file is not that version — the driver must fail and leave the output alone (D84)
+		gone := -1
+		if r.Chance(10) {
+			gone = r.Intn(3)
+			if o := sha(cont[gone]); len(cont[gone]) > 0 && o != sha(cont[(gone+1)%3]) && o != sha(cont[(gone+2)%3]) {
+				os.Remove(filepath.Join(dir, ".git", "lfs", "objects", o[0:2], o[2:4], o))
+				c.R.Count("mergedriver.input-object-missing")
+			} else {
+				gone = -1
+			}
+		}
 		out, code := runIn(dir, env, c.Lfs, "merge-driver", "--ancestor", "O.ptr", "--current", "A.ptr", "--other", "B.ptr", "--output", outFile, "--program", prog)
+		if gone >= 0 {
+			after, _ := os.ReadFile(filepath.Join(dir, outFile))
+			encG := fmt.Sprintf("C01 mergedriver input-missing=%s sizes=%d/%d/%d program=%q output=%s", []string{"ancestor", "current", "other"}[gone], len(cont[0]), len(cont[1]), len(cont[2]), prog, outFile)
+			c.R.Eval(encG, true)
+			if code == 0 {
+				c.R.Add(Finding{Kind: "oracle", What: "merge-driver succeeded although the object of one version was neither in local storage nor downloadable: the merge program ran on an empty file in its place", Case: encG,
+					Impl: fmt.Sprintf("exit 0; output file now %q", clip(string(after), 200))})
+			}
+			// put the object back for the following cases
+			o := sha(cont[gone])
+			os.MkdirAll(filepath.Join(dir, ".git", "lfs", "objects", o[0:2], o[2:4]), 0o755)
+			os.WriteFile(filepath.Join(dir, ".git", "lfs", "objects", o[0:2], o[2:4], o), cont[gone], 0o644)
+			continue
+		}
 		got, _ := os.ReadFile(filepath.Join(dir, outFile))
 		want := canonicalPointer(sha(merged), int64(len(merged)))
 		enc := fmt.Sprintf("C01 mergedriver sizes=%d/%d/%d program=%q output=%s oldlen=%d", len(cont[0]), len(cont[1]), len(cont[2]), prog, outFile, len(old))
@@ -714,6 +747,18 @@ func c01MergeDriver(c *Ctx, r *Rng) {
 		}
 		if b, err := os.ReadFile(filepath.Join(dir, ".git", "lfs", "objects", sha(merged)[0:2], sha(merged)[2:4], sha(merged))); err != nil || !bytes.Equal(b, merged) {
 			c.R.Add(Finding{Kind: "oracle", What: "after merge-driver the merged content is not in local storage under its SHA-256", Case: enc})
+		}
+		// the three versions that went into the merge are still what local storage holds under their ids
+		for k := 0; k < 3; k++ {
+			o := sha(cont[k])
+			if b, err := os.ReadFile(filepath.Join(dir, ".git", "lfs", "objects", o[0:2], o[2:4], o)); len(cont[k]) > 0 && (err != nil || !bytes.Equal(b, cont[k])) {
+				c.R.Add(Finding{Kind: "oracle", What: "after merge-driver an object that went INTO the merge is no longer what local storage holds under its id (the merge program worked on the stored file itself)", Case: enc,
+					Impl: fmt.Sprintf("%s version: %d bytes stored, %d expected", []string{"ancestor", "current", "other"}[k], len(b), len(cont[k]))})
+				// repair for the following cases
+				os.Chmod(filepath.Join(dir, ".git", "lfs", "objects", o[0:2], o[2:4], o), 0o644)
+				os.WriteFile(filepath.Join(dir, ".git", "lfs", "objects", o[0:2], o[2:4], o), cont[k], 0o644)
+				break
+			}
 		}
 		lines = append(lines, fmt.Sprintf("C01 mergeout %s %s", hx(old), hx(want)))
 		impl = append(impl, hx(got))
